@@ -230,7 +230,13 @@ func lineEnds(msg []byte, seen hx.Seen) string {
 		}
 	}
 	chunked := len(seen.Header["Transfer-Encoding"]) > 0
+	// RFC 7230 3.3.3 rule 1: a 1xx / 204 / 304 response ends at the blank line whatever its framing fields say
+	bodiless := seen.IsResp && (seen.StatusCode/100 == 1 || seen.StatusCode == 204 || seen.StatusCode == 304)
 	switch {
+	case bodiless:
+		if len(ms) != he+hl {
+			return "bodiless response does not end at the blank line"
+		}
 	case chunked:
 		// walk the chunked body: size lines and trailer lines end in CR LF and contain no bare CR or LF; the
 		// chunk-size line is HEXDIG+ [BWS] [";" extension]
